@@ -251,6 +251,49 @@ class _AttrIdioms(ast.NodeTransformer):
             return self._aug(ast.copy_location(ast.Assign(targets=[ast.copy_location(tgt, c)], value=c.args[2]), node))
         return node
 
+    def _built_then_stored(self, node):
+        """x = Ctor(..); <statements using x>; self.a = x   (x used nowhere else)  ->  self.a = Ctor(..); <.. self.a ..>"""
+        body = node.body
+        i = 0
+        while i < len(body):
+            st = body[i]
+            if isinstance(st, ast.Assign) and len(st.targets) == 1 and isinstance(st.targets[0], ast.Name) and isinstance(st.value, ast.Call):
+                x = st.targets[0].id
+                stores = [n for n in ast.walk(node) if isinstance(n, ast.Name) and n.id == x and isinstance(n.ctx, (ast.Store, ast.Del))]
+                if len(stores) == 1:
+                    for j in range(i + 1, len(body)):
+                        fin = body[j]
+                        if isinstance(fin, ast.Assign) and len(fin.targets) == 1 and isinstance(fin.targets[0], ast.Attribute) and isinstance(fin.targets[0].value, ast.Name) and fin.targets[0].value.id == 'self' and isinstance(fin.value, ast.Name) and fin.value.id == x:
+                            attr = fin.targets[0].attr
+                            between = body[i + 1 : j]
+                            after = body[j + 1 :]
+                            touched = any(isinstance(n, ast.Attribute) and n.attr == attr for b in between for n in ast.walk(b))
+                            used_after = any(isinstance(n, ast.Name) and n.id == x for b in after for n in ast.walk(b))
+                            nested = any(isinstance(n, (ast.FunctionDef, ast.AsyncFunctionDef, ast.Lambda)) for b in between for n in ast.walk(b))
+                            if not touched and not used_after and not nested:
+                                st.targets = [ast.copy_location(ast.Attribute(value=ast.Name(id='self', ctx=ast.Load()), attr=attr, ctx=ast.Store()), st.targets[0])]
+                                for b in between:
+                                    for p_ in ast.walk(b):
+                                        for f_, v_ in ast.iter_fields(p_):
+                                            if isinstance(v_, ast.Name) and v_.id == x and isinstance(v_.ctx, ast.Load):
+                                                setattr(p_, f_, ast.copy_location(ast.Attribute(value=ast.Name(id='self', ctx=ast.Load()), attr=attr, ctx=ast.Load()), v_))
+                                            elif isinstance(v_, list):
+                                                for k_, e_ in enumerate(v_):
+                                                    if isinstance(e_, ast.Name) and e_.id == x and isinstance(e_.ctx, ast.Load):
+                                                        v_[k_] = ast.copy_location(ast.Attribute(value=ast.Name(id='self', ctx=ast.Load()), attr=attr, ctx=ast.Load()), e_)
+                                del body[j]
+                                self.n += 1
+                            break
+            i += 1
+
+    def visit_FunctionDef(self, node):
+        self.generic_visit(node)
+        if node.args.args and node.args.args[0].arg == 'self':
+            self._built_then_stored(node)
+        return node
+
+    visit_AsyncFunctionDef = visit_FunctionDef
+
     def visit_Assign(self, node):
         self.generic_visit(node)
         return self._aug(node)
@@ -603,6 +646,48 @@ class _NotCompare(ast.NodeTransformer):
             c.ops = [self._NEG[type(c.ops[0])]()]
             self.n += 1
             return ast.copy_location(c, node)
+        return node
+
+
+class _HandlerIsinstance(ast.NodeTransformer):
+    """inside `except T as e:` the test `isinstance(e, T)` holds: `isinstance(e, T) and X` is `X` there (as long as the
+    handler does not rebind e)."""
+
+    def __init__(self):
+        self.n = 0
+        self.stack = []
+
+    def visit_ExceptHandler(self, node):
+        ok = node.name is not None and node.type is not None and not isinstance(node.type, ast.Tuple) and not any(isinstance(x, ast.Name) and x.id == node.name and isinstance(x.ctx, ast.Store) for b in node.body for x in ast.walk(b))
+        self.stack.append((node.name, ast.dump(node.type)) if ok else None)
+        self.generic_visit(node)
+        self.stack.pop()
+        return node
+
+    def visit_FunctionDef(self, node):
+        st, self.stack = self.stack, []
+        self.generic_visit(node)
+        self.stack = st
+        return node
+
+    visit_AsyncFunctionDef = visit_FunctionDef
+    visit_Lambda = visit_FunctionDef
+
+    def _known(self, e):
+        if not (isinstance(e, ast.Call) and isinstance(e.func, ast.Name) and e.func.id == 'isinstance' and len(e.args) == 2 and not e.keywords and isinstance(e.args[0], ast.Name)):
+            return False
+        return any(fr is not None and fr[0] == e.args[0].id and fr[1] == ast.dump(e.args[1]) for fr in self.stack)
+
+    def visit_BoolOp(self, node):
+        self.generic_visit(node)
+        if isinstance(node.op, ast.And) and any(self._known(v) for v in node.values):
+            rest = [v for v in node.values if not self._known(v)]
+            self.n += 1
+            if not rest:
+                return ast.copy_location(ast.Constant(True), node)
+            if len(rest) == 1:
+                return rest[0]
+            node.values = rest
         return node
 
 
@@ -2437,6 +2522,13 @@ class Normalizer:
                 if m.node.decorator_list and not m.is_static:
                     continue
                 self.expand(m)
+                short = self._thin_wrapper_target(m, n, d, sn)
+                if short is not None:
+                    old_node, new_node = short
+                    if self._replace_everywhere(d.node, old_node, ast.copy_location(new_node, old_node)):
+                        self.stats['idioms'] += 1
+                        self.log.append(f'thin wrapper {m.qual} replaced by its target in {d.qual}')
+                        continue
                 if n.attr not in made:
                     cp = copy.deepcopy(m.node)
                     cp.decorator_list = []
@@ -2469,6 +2561,60 @@ class Normalizer:
                 for x in self.defs[d.rel]:
                     if x.owner is sub or (x.owner is not None and x.owner.owner is sub):
                         x.expanded = True
+
+    def _thin_wrapper_target(self, m, attr_node, d, sn):
+        """`self.m` where m only forwards its parameters:
+        - as a value (`call_soon_threadsafe(self.m, x)`) with body `<target>(p1, .., pn)`: the target itself (eta-reduction);
+        - as a non-awaited call `self.m(a..)` of `async def m(p..): return await <expr>`: `<expr>` with the arguments put in."""
+        if m.is_static or m.node.decorator_list:
+            return None
+        a = m.node.args
+        if a.vararg or a.kwarg or a.kwonlyargs or a.defaults:
+            return None
+        params = [x.arg for x in a.posonlyargs + a.args]
+        if not params:
+            return None
+        first, params = params[0], params[1:]
+        body = [b for b in m.node.body if not (isinstance(b, ast.Expr) and isinstance(b.value, ast.Constant))]
+        if len(body) != 1 or not isinstance(body[0], (ast.Expr, ast.Return)) or body[0].value is None:
+            return None
+        e = body[0].value
+        parent = None
+        for p_ in ast.walk(d.node):
+            for ch in ast.iter_child_nodes(p_):
+                if ch is attr_node:
+                    parent = p_
+        is_call = isinstance(parent, ast.Call) and parent.func is attr_node
+        if not is_call:
+            if isinstance(m.node, ast.AsyncFunctionDef):
+                if not (isinstance(e, ast.Await) and isinstance(body[0], ast.Return)):
+                    return None
+                e = e.value
+            if not (isinstance(e, ast.Call) and not e.keywords and len(e.args) == len(params) and all(isinstance(x, ast.Name) and x.id == p for x, p in zip(e.args, params))):
+                return None
+            if any(isinstance(x, ast.Name) and x.id in params for x in ast.walk(e.func)):
+                return None
+            tgt = copy.deepcopy(e.func)
+            if first != sn:
+                tgt = _Subst({first: sn}, {}).visit(tgt)
+            return attr_node, tgt
+        # non-awaited call of an async forwarding method
+        if not isinstance(m.node, ast.AsyncFunctionDef) or not (isinstance(body[0], ast.Return) and isinstance(e, ast.Await)):
+            return None
+        gp = None
+        for p_ in ast.walk(d.node):
+            for ch in ast.iter_child_nodes(p_):
+                if ch is parent:
+                    gp = p_
+        if isinstance(gp, ast.Await):
+            return None
+        if parent.keywords or len(parent.args) != len(params) or any(isinstance(x, ast.Starred) for x in parent.args):
+            return None
+        if any(not isinstance(x, (ast.Name, ast.Constant, ast.Attribute)) for x in parent.args):
+            return None
+        expr = copy.deepcopy(e.value)
+        expr = _Subst({first: sn} if first != sn else {}, dict(zip(params, parent.args))).visit(expr)
+        return parent, expr
 
     def _replace_everywhere(self, root, old, new):
         for p in ast.walk(root):
@@ -3252,6 +3398,44 @@ class Normalizer:
             return True
         return x == y and y not in rm
 
+    def _expand_composed_decorators(self, tree):
+        """`def deco(f): return A(B(f))` used as `@deco` is the decorator stack `@A` / `@B`."""
+        composed = {}
+        for st in tree.body:
+            if not isinstance(st, ast.FunctionDef) or st.decorator_list:
+                continue
+            a = st.args
+            if len(a.args) != 1 or a.vararg or a.kwarg or a.kwonlyargs or a.posonlyargs:
+                continue
+            body = [b for b in st.body if not (isinstance(b, ast.Expr) and isinstance(b.value, ast.Constant))]
+            if len(body) != 1 or not isinstance(body[0], ast.Return) or body[0].value is None:
+                continue
+            chain, e = [], body[0].value
+            while isinstance(e, ast.Call) and len(e.args) == 1 and not e.keywords and not any(isinstance(x, ast.Name) and x.id == a.args[0].arg for x in ast.walk(e.func)):
+                chain.append(e.func)
+                e = e.args[0]
+            if len(chain) >= 2 and isinstance(e, ast.Name) and e.id == a.args[0].arg:
+                composed[st.name] = (st, chain)
+        if not composed:
+            return
+        used = set()
+        for n in ast.walk(tree):
+            if isinstance(n, (ast.FunctionDef, ast.AsyncFunctionDef, ast.ClassDef)):
+                out = []
+                for d in n.decorator_list:
+                    if isinstance(d, ast.Name) and d.id in composed:
+                        out += [copy.deepcopy(c) for c in composed[d.id][1]]
+                        used.add(d.id)
+                        self.log.append(f'decorator @{d.id} on {n.name} expanded into its stack')
+                    else:
+                        out.append(d)
+                n.decorator_list = out
+        for name in used:
+            others = [x for x in ast.walk(tree) if isinstance(x, ast.Name) and x.id == name]
+            if not others:
+                tree.body = [b for b in tree.body if b is not composed[name][0]]
+            self.stats['idioms'] += 1
+
     def run(self):
         for tree in self.trees.values():
             la = _LocalAnnAssign()
@@ -3260,6 +3444,7 @@ class Normalizer:
             li = _LoopIdioms()
             li.visit(tree)
             self.stats['idioms'] += li.n
+            self._expand_composed_decorators(tree)
             ast.fix_missing_locations(tree)
         self._rehome_moved_definitions()
         self._flatten_new_bases()
@@ -3283,6 +3468,9 @@ class Normalizer:
             ci = _CallIdioms()
             ci.visit(tree)
             self.stats['idioms'] += ci.n
+            hi = _HandlerIsinstance()
+            hi.visit(tree)
+            self.stats['idioms'] += hi.n
             t = _NotCompare()
             t.visit(tree)
             _FoldFString().visit(tree)
